@@ -36,6 +36,8 @@ def run(ctx):
     # SI signatures meet in `==` / `!=` (as_quantity, + - and the comparisons of SI): they must be one kind of container everywhere
     from ..statrules import compared_container_fields
     compared_container_fields(ctx, 'R16.7', 'units')
+    from ..statrules import memo_soundness
+    memo_soundness(ctx, 'R16.8', ['units'])
 
 
 def fmt(sig):
